@@ -14,7 +14,7 @@ META = {
                    "integral of the result between consecutive fixed points (recomputed by a declarative oracle) "
                    "must equal the reference integral: `path condition & not claim` is discharged by z3 (most "
                    "identities already close syntactically in the canonical polynomial form).",
-    "bounds": {"quick": "API (many intervals, concrete reference positions): N in {9,13}, M in {4,5}, incl. explicit fixed points that are a strict subset of the reference points; API (symbolic positions): N in {5,7} samples, M in {2,3} reference points, concrete x on uniform and {1,2,3}/2 gap "
+    "bounds": {"quick": "API (many intervals, concrete reference positions): N in {9,13}, M in {4,5}, incl. explicit fixed points matched to a strict subset of the reference points that does or does not reach the first / last reference point (also: 2 explicit fixed points against 3 symbolic reference positions); API (symbolic positions): N in {5,7} samples, M in {2,3} reference points, concrete x on uniform and {1,2,3}/2 gap "
                         "patterns, 2x2 rules, alpha in {1,2,1/2}, five ways of designating fixed points; kernel with "
                         "symbolic x: N<=5 (alpha 1), N=4 (alpha 2); kernel on lattice grids N<=8 alpha 1..3; symbolic "
                         "alpha>0 (uninterpreted pow + axioms) N=5",
